@@ -94,3 +94,12 @@ Fixpoint causal (lo : Z) (cs : list events) : Prop :=
   | [] => True
   | c :: t => e_lo c = lo /\ lo <= e_hi c /\ Forall (fun x => lo <= x) (evs c) /\ causal (e_hi c) t
   end.
+
+(* added with the repair "rms numbers its output blocks additively" (fix-C12-rms), for [rms_step_x]: output blocks
+   whose s0 is kept in INPUT samples are contiguous when each starts n * (its number of values) after the previous
+   one.  In the code's units (s0 / n, an exact rational here) that is: first block at s / n, every later block where
+   the previous one ended - for EVERY first sample index s, also when n does not divide it. *)
+Fixpoint mkstream_x {A} (n : Z) (h : hdr) (s : Z) (ds : list (list A)) : list (blk A) :=
+  match ds with [] => [] | d :: t => mk h s d :: mkstream_x n h (s + n * zlen d) t end.
+Definition contiguous_x {A} (n : Z) (h : hdr) (s : Z) (outs : list (blk A)) : Prop :=
+  outs = mkstream_x n h s (map dat outs).
